@@ -441,6 +441,10 @@ def monitor_case(ops, obs, which):
         fl = parse_fl(o.get("fl")); pfl = parse_fl(prev.get("fl"))
         op = t[0]
         is_alloc = op.startswith("alloc_")
+        # ---- the cursor of an arena nobody has tampered with never lies beyond its capacity
+        if al > cp and fstate["mode"] is None and not fstate.get("tampered") and not fstate.get("truncated"):
+            for p_ in ("C15", "C16", "C04"):
+                V(p_, "cursor-beyond-capacity", f"after {ops[i].strip()}: allocated() = {al} > capacity() = {cp} (allocated_memory() is longer than memory())", i)
         # ---- C16: remaining = capacity - allocated
         if rem != max(cp - al, 0):
             V("C16", "remaining", f"remaining {rem} != capacity {cp} - allocated {al}", i)
@@ -507,6 +511,9 @@ def monitor_case(ops, obs, which):
                             V("C03", "offset-align", f"alloc<{A},{S}> offset {off}", i)
                         if o.get("am", "0") != "0":
                             V("C03", "addr-align", f"alloc<{A},{S}>: address misaligned by {o.get('am')} (within the alignment the arena guarantees)", i)
+                if "pq" in o:
+                    for p_ in ("C03", "C04", "C01"):
+                        V(p_, "pointer-not-at-offset", f"{ops[i].strip()}: the handle reports offset {off} but its pointer is at arena offset {o['pq']}", i)
                 # C16: the first allocation starts at the first suitably aligned offset at or after data_offset
                 if pal == doff and not rewound and need > 0 and cap > 0 and not pfl:
                     exp_off = doff if op.startswith("alloc_bytes") else (doff + A - 1) // A * A
@@ -708,6 +715,8 @@ def monitor_case(ops, obs, which):
                 elif op == "set_len":
                     if nlen != int(t[2]):
                         V("C14", "set-len", f"{ops[i].strip()}: len {nlen}", i)
+                    if o.get("sz") == "0":
+                        V("C14", "set-len-not-zeroed", f"{ops[i].strip()} (len was {blen}): the bytes it exposes / hides are not all zero afterwards", i)
                 elif op in ("align_to", "put_aligned"):
                     A_, S_ = int(t[2]), int(t[3])
                     if S_ > 0 and o.get("po") not in (None, "dangling"):
@@ -753,6 +762,8 @@ def monitor_case(ops, obs, which):
                 V("C09", "ro-state-changes", f"{ops[i].strip()} changed a read-only arena", i)
             if (is_alloc and r == "ok" and int(o.get("cap", 0)) + int(o.get("bcap", 0)) > 0) or (op in ("discard_freelist", "clear") and r == "ok"):
                 V("C09", "ro-accepts-mutator", f"{ops[i].strip()} -> {r} on a read-only arena", i)
+            if op == "truncate" and r == "ok":
+                V("C09", "ro-truncate-accepted", f"{ops[i].strip()} -> ok on a read-only arena", i)
             if op == "discard_freelist" and r != "ReadOnly":
                 V("C20", "ro-discard-freelist", f"discard_freelist -> {r} on a read-only arena (expected ReadOnly)", i)
         if op == "close":
